@@ -429,6 +429,25 @@ def main(tier_: str) -> int:
                         lines.append({'ev': 'field', 'box': lb.name, 'field': fname, 'value_class': f'bytes of {f.name} ({n} mutations)' +
                                       (f' failing offset:value {bad[:6]}' if bad else ''), 'eq': 0 if bad else 1})
         out.coverage['legal_byte_mutations'] = nmut
+        # ---- version 1 forms: every stored full box that has a 64-bit form (ISO/IEC 14496-12: sidx, tfdt, mehd, mvhd, mdhd, tkhd) is
+        # re-written in that form - the 32-bit fields widened to 64 bits, once with a zero and once with a non-zero upper half - and
+        # must round-trip like the stored form
+        WIDE = {'sidx': (12, 16), 'tfdt': (4,), 'mehd': (4,), 'mvhd': (4, 8, 16), 'mdhd': (4, 8, 16), 'tkhd': (4, 8, 20)}
+        nwide = 0
+        for name, raw in sorted(seen_leaf):
+            if name not in WIDE or raw[8] != 0:
+                continue
+            for upper in (b'\x00\x00\x00\x00', b'\x00\x00\x00\x02'):
+                m = bytearray(raw)
+                for off in sorted(WIDE[name], reverse=True):
+                    m[8 + off:8 + off] = upper
+                m[8] = 1
+                m[0:4] = _st.pack('>I', len(m))
+                nwide += 1
+                ok = rt_bytes(bytes(m))
+                lines.append({'ev': 'field', 'box': name, 'field': 'version 1 form',
+                              'value_class': f'{len(raw)} byte version 0 box widened to {len(m)} bytes, upper halves {upper.hex()}', 'eq': ok})
+        out.coverage['version1_forms'] = nwide
         # ---- avcC: the profile decides whether the High-profile trailer (chroma format, bit depths, SPS extensions) follows the
         # PPS list (ISO/IEC 14496-15 5.3.3.1.2).  The profile byte of every stored avcC is set to every profile of its own class
         # (with / without trailer) inside its whole init segment, which must still round-trip.
